@@ -447,6 +447,65 @@ def sampleCount (fw : FW) (mt : MT) (fr : Frame R) : Option Nat :=
   | .mem | .np => some (if mt = .centered then ne else if ne = 0 then 0 else 1)
   | .stream => if ne = 0 then none else some (if mt = .centered then ne else 1)
 
+/-! ## which instances of a labelled frame each framework enumerates (`user_instances_only`)
+
+A labelled frame as sleap-io holds it: every instance is a user instance (`false`) or a predicted
+one (`true`), in file order.  With `user_instances_only` every framework replaces
+`lf.instances` by `lf.user_instances` **when that list is not empty** (a frame with predicted
+instances only is used as it is) and the replacement is an assignment: it persists on the frame.
+
+* torch datasets: `_get_lf_idx_list` / `_get_instance_idx_list` filter (and assign) once when the
+  dataset is built; `_fill_cache` then iterates `lf` — the assigned list — and, for the single /
+  bottom-up / centroid classes, goes through `process_lf`, which filters the already filtered frame
+  again.  `CenteredInstanceDataset._fill_cache` stacks `for inst in lf` and indexes that stack with
+  the indices `_get_instance_idx_list` took from the filtered list: it relies on the assignment.
+* chunk functions: `process_lf` filters once.
+-/
+
+/-- `(is_predicted, keypoints)` in file order -/
+abbrev Labelled (R : Type) := List (Bool × Inst R)
+
+/-- `if user_instances_only and len(lf.user_instances) > 0: lf.instances = lf.user_instances` -/
+def filterFrame (uio : Bool) (l : Labelled R) : Labelled R :=
+  if uio && !(l.filter fun p => !p.1).isEmpty then l.filter fun p => !p.1 else l
+
+/-- the instance list framework `fw` works on for one labelled frame -/
+def enumerated (fw : FW) (mt : MT) (uio : Bool) (l : Labelled R) : List (Inst R) :=
+  match fw, mt with
+  | .stream, _ => (filterFrame uio l).map (·.2)                               -- `process_lf`
+  | _, .centered => (filterFrame uio l).map (·.2)     -- index list and stack both see the assigned list
+  | _, _ => (filterFrame uio (filterFrame uio l)).map (·.2)   -- `_get_lf_idx_list`, then `process_lf`
+
+/-- a labelled frame with its raw image size -/
+structure RawFrame (R : Type) where
+  h : Nat
+  w : Nat
+  c : Nat
+  labelled : Labelled R
+
+/-- the frame framework `fw` processes -/
+def RawFrame.seenBy (rf : RawFrame R) (fw : FW) (mt : MT) (uio : Bool) : Frame R :=
+  { h := rf.h, w := rf.w, c := rf.c, insts := enumerated fw mt uio rf.labelled }
+
+/-- sample for a raw labelled frame -/
+def sampleOfRaw (N : Num R) (fw : FW) (cfg : Cfg R) (uio : Bool) (rf : RawFrame R) (k : Nat) : Sample R :=
+  sampleOf N fw cfg (rf.seenBy fw cfg.mt uio) k
+
+/-! ## the `.npz` chunk directory
+
+`dir` = the samples `sample_0.npz, sample_1.npz, …` in `np_chunks_path` stand for.  A dataset built
+with `use_existing_chunks = False` writes one file per item, **whatever the directory holds**
+(files beyond its own count stay); with `use_existing_chunks = True` it writes nothing and serves
+the directory. -/
+
+/-- (directory afterwards, samples served) -/
+def npDataset (N : Num R) (useExisting : Bool) (dir : List (Sample R)) (cfg : Cfg R)
+    (items : List (Frame R × Nat)) : List (Sample R) × List (Sample R) :=
+  if useExisting then (dir, dir)
+  else
+    let w := items.map fun it => sampleOf N .np cfg it.1 it.2
+    (w ++ dir.drop w.length, w)
+
 /-! ## targets -/
 
 /-- what the `__getitem__`s generate from a sample (all frameworks call the same generators on the
